@@ -140,6 +140,8 @@ func init() {
 			c.rulesR3parent()
 			c.rulesR4ctxret()
 			c.rulesR4loopexit()
+			c.rulesR4safeclose()
+			c.rulesR4endsend(c.lockAnalysis())
 			c.rulesR3misc("C13")
 			c.rulesR3misc("C06") // C06.close: a waiter collected but never closed survives Dispose
 			c.rulesC13send(c.lockAnalysis())
@@ -295,6 +297,7 @@ func init() {
 	}, func(c *Ctx) {
 		c.rulesC15()
 		c.rulesC15key()
+		c.rulesR4errmulti()
 		c.rulesR3batch3("C15")
 	})
 }
